@@ -100,7 +100,7 @@ def install_kdf_guard(cap_iterations=1 << 16, cap_scrypt=1 << 15):
     if not hasattr(_PBES.PBKDF2, "__wrapped__"):
         _PBES.PBKDF2 = guard(_PBES.PBKDF2, lambda pw, salt, dklen=16, count=1000, *a, **kw: count)
         _PBES.PBKDF1 = guard(_PBES.PBKDF1, lambda pw, salt, dklen, count=1000, *a, **kw: count)
-        s = guard(_PBES.scrypt, lambda pw, salt, key_len, N, r, p, *a, **kw: N * r * p)
+        s = guard(_PBES.scrypt, lambda pw, salt, key_len, N, r, p, *a, **kw: N * r * p if all(type(x) is int for x in (N, r, p)) else 0)
         s.cap = cap_scrypt
         _PBES.scrypt = s
 
@@ -294,6 +294,10 @@ class Harness(object):
             if producer == "lib":
                 self.check(accepted, "valid:%s:own-encoding-refused" % dec.base,
                            "%s refused an encoding produced by the library itself" % dec.base,
+                           lambda: W(outcome=oc, exception=repr(val)[:300]), size)
+            elif producer == "ref-strict":
+                self.check(accepted, "valid:%s:canonical-encoding-refused" % dec.base,
+                           "%s refused a canonical encoding written by the reference model" % dec.base,
                            lambda: W(outcome=oc, exception=repr(val)[:300]), size)
             elif not accepted:
                 ctx.count(name + "|ref_encoding_refused")
@@ -604,6 +608,7 @@ class ImporterRun(object):
                     h = hostile_pbes2(clear)
                     if h is not None:
                         data, views = self.wrap(e, h)
+                        self.ctx.count("hostile_cost_inputs_without_passphrase")
                         self.offer(e, data, "kdf-cost=2^31", False)
                         self.offer(e, data, "kdf-cost=2^31", True)
             elif e.fmt == "sec1":
@@ -642,6 +647,7 @@ class ImporterRun(object):
                         if self.hostile_left <= 0:
                             continue
                         self.hostile_left -= 1
+                        self.ctx.count("hostile_cost_inputs_without_passphrase")
                     text = M.armor(mut, marker, width=70, trailing=True)
                     self.offer(e, text, kind, False)
                     if not hostile and kind.startswith("openssh:bcrypt"):
@@ -697,7 +703,8 @@ class ImporterRun(object):
                     s = s.decode("latin-1")
                 kw = None
                 if "curve" in dec.name:
-                    kw = {"curve_name": rng.choice(ALL_CURVES)}
+                    # SEC1 import is documented for the NIST P curves only: other curve names are outside the domain of the argument
+                    kw = {"curve_name": rng.choice(NIST)}
                 self.H.offer(dec, s, "random", kw=kw)
                 if text_templates and i % 4 == 0:
                     t = rng.choice(text_templates)(rng)
